@@ -22,7 +22,7 @@ def run(ctx):
     specs = [(Cfg('asm'), 'rel'), (Cfg('c32'), 'rel'), (Cfg('generic'), 'rel'), (Cfg('dxor'), 'asan')]
     if ctx.thorough:
         specs += [(Cfg('c64'), 'rel'), (Cfg('asm'), 'asan'), (Cfg('asm', checker=True), 'rel')]
-    return run_matrix(ctx, hs, specs, RULE, assumptions=ASSUME)
+    return run_matrix(ctx, hs, specs, RULE, level='fault_enumeration', assumptions=ASSUME)
 
 
 def replay(ctx, rec):
